@@ -1,5 +1,6 @@
 import Driver.Frame
 import KrakenModel.Model.MetaInfo
+import KrakenModel.Model.MetaInfoGen
 import KrakenModel.Model.RefreshPL
 /- Driver for C02: replays metainfo generation / (de)serialisation / piece-length-table records on
    the model and evaluates the property's predicates on what the implementation returned.
@@ -221,18 +222,27 @@ def stepPlt (_ : Unit) (kind : String) (args impl : List String) : Option (Unit 
       if cs.length ≠ crcs.length then none else
       let tbl := cs.zip crcs
       let sha1 : List Char → Nat := fun _ => 0
-      let pf := if impl.head? = some "ok" ∧ pl > 0 then describeFails pl d data tbl impl else []
-      match newMetaInfo sha1 (crcOf tbl) d.toList data pl with
-      | .ok mi =>
+      -- the stored metainfo must use the piece length the CURRENT table gives for the blob's size, whatever
+      -- sidecar existed before (`pre=` says what the harness put there first)
+      let want := specGet (m.map fun kv => (toInt64 kv.1, toInt64 kv.2)) data.length
+      let pfPl := match impl.head?, (kv? impl "pl").bind String.toInt?, want with
+        | some "ok", some ipl, some w =>
+          if ipl ≠ w then [s!"side=impl key=stale-piece-length after Generate the stored metainfo has piece length {ipl}, the table gives {w} for a blob of {data.length} bytes (pre={(kv? rest "pre").getD "none"})"] else []
+        | _, _, _ => []
+      let pf := pfPl ++ (if impl.head? = some "ok" ∧ pl > 0 then describeFails pl d data tbl impl else [])
+      let preKind := (((kv? rest "pre").getD "none").splitOn ":").headD "none"
+      let old : Option (List Char) := if preKind = "none" then none else some ['?']
+      match KrakenModel.MetaInfoGen.generate sha1 (crcOf tbl) t d.toList data old with
+      | (.ok, some ser) =>
         -- Generate stores the serialisation and the observation is the parsed-back metadata
-        match deserialize sha1 (serializeInfo mi.info) with
+        match deserialize sha1 ser with
         | .ok mi' =>
           let i2 := mi'.info
           let obs := ["ok", "len=" ++ toString i2.length, "pl=" ++ toString i2.pieceLength, "sums=" ++ sumsTok i2.pieceSums,
               "name=" ++ strTok (String.ofList i2.name), "gpl=" ++ intListTok (gplList i2)]
-          pure ((), { obs := obs, branch := "generate.ok", propfails := pf })
+          pure ((), { obs := obs, branch := if preKind = "none" then "generate.ok" else "generate.over-" ++ preKind, propfails := pf })
         | _ => pure ((), { obs := ["err", "readback"], branch := "generate.readback", propfails := pf })
-      | .errPieceLength => pure ((), { obs := ["err", "create"], branch := "generate.errPieceLength", propfails := pf })
+      | (.errCreate, _) => pure ((), { obs := ["err", "create"], branch := "generate.errPieceLength", propfails := pf })
       | _ => pure ((), { obs := ["err", "other"], branch := "generate.err", propfails := pf })
   | _ => none
 
